@@ -442,6 +442,19 @@ def _descr(sp):
     return f"({sp['pts']})"
 
 
+def _metric_ball(sp, c, r, ic):
+    dims, torus = sp["dims"], sp["torus"]
+    coords = _cells_of(dims)
+    cc = coords[c]
+    out = set()
+    for i, x in enumerate(coords):
+        ds = [min((a - b) % n, (b - a) % n) if torus else abs(a - b) for a, b, n in zip(x, cc, dims)]
+        dist = max(ds) if sp["kind"] == "moore" else sum(ds)
+        if dist <= r and (i != c or ic):
+            out.add(i)
+    return out
+
+
 def _ball(conn, c, r):
     """cells within r connection hops of c (including c at 0 hops)"""
     seen = {c}
@@ -462,7 +475,13 @@ def _ball(conn, c, r):
 def run_impl(case):
     sp = case["space"]
     cls = _CLS[sp["kind"]]
-    space = _make_space(sp)
+    try:
+        space = _make_space(sp)
+    except Exception as e:  # noqa: BLE001  the space cannot even be built: every operation fails
+        n = len(case["ops"])
+        return {"obs": [[-1, 99]] * n, "ops_for_model": [list(o) for o in case["ops"]], "model": False,
+                "failures": [{"key": f"C07/{cls}/construct/unexpected-exception", "op": 0,
+                              "what": f"{cls}{_descr(sp)} raised {type(e).__name__}: {e}"}]}
     cells = list(space._cells.values())
     idx = {id(c): i for i, c in enumerate(cells)}
     built = False
@@ -521,6 +540,14 @@ def run_impl(case):
             where = f"{cls} {_descr(sp)}, cell #{c} {getattr(cell, 'coordinate', '')} with connections to {sorted(set(conn[c]))}"
             if len(set(got)) != len(got):
                 failures.append({"key": "C07/Cell/neighborhood/duplicates", "op": opi, "what": f"{where}: {call} lists a cell twice: {got}"})
+            if sp["kind"] in ("moore", "vn") and set(got) == exp:
+                # consequence of the two halves of the statement together: on an orthogonal grid the r-hop ball is
+                # the Chebyshev / Manhattan ball (per-axis toroidal distance on a torus)
+                mexp = _metric_ball(sp, c, r, ic)
+                if set(got) != mexp:
+                    failures.append({"key": f"C07/{cls}/neighborhood/not-the-metric-ball", "op": opi,
+                                     "what": f"{where}: {call} = {sorted(got)} but the cells within "
+                                             f"{'Chebyshev' if sp['kind'] == 'moore' else 'Manhattan'} distance {r} are {sorted(mexp)}"})
             if set(got) != exp:
                 if c in got and not ic:
                     key = "C07/Cell/neighborhood/center-present-without-include_center"
